@@ -327,7 +327,7 @@ func (s *session) request(kind int, scheme, urlhost string) obsJSON {
 		connHdr = ""
 	}
 	for attempt := 0; attempt < 2; attempt++ {
-		if !s.sameConn || s.c == nil || (kind == 3) != s.inMITM {
+		if !s.sameConn || s.c == nil || (kind == 3) != s.inMITM && kind != 4 {
 			s.close()
 			if err := s.open(); err != nil {
 				o.Err = "dial proxy: " + err.Error()
@@ -337,8 +337,12 @@ func (s *session) request(kind int, scheme, urlhost string) obsJSON {
 		fresh := s.br.Buffered() == 0 // nothing pending from an earlier exchange
 		var err error
 		switch kind {
-		case 0, 2: // absolute-form GET (http or https target)
-			fmt.Fprintf(s.rw, "GET %s://%s/p HTTP/1.1\r\nHost: %s\r\n%s\r\n", scheme, urlhost, urlhost, connHdr)
+		case 0, 2, 4: // absolute-form GET (http or https target); 4: origin-form GET naming the target in Host only
+			if kind == 4 {
+				fmt.Fprintf(s.rw, "GET /p HTTP/1.1\r\nHost: %s\r\n%s\r\n", urlhost, connHdr)
+			} else {
+				fmt.Fprintf(s.rw, "GET %s://%s/p HTTP/1.1\r\nHost: %s\r\n%s\r\n", scheme, urlhost, urlhost, connHdr)
+			}
 			var res *http.Response
 			if res, err = readFull(s.br, nil); err == nil {
 				o.Status = res.StatusCode
